@@ -646,6 +646,9 @@ package rewriter
 //@   ensures[res] res != nil && (res == children || fresh(res)) && BlockInv(res) && ATBL(res) && BodyKind(BOwner(res))
 //@        && (res != children ==> BOwner(res) == kindDelay && EndsOK(children))
 //@        && !BFrozen(res) && BLen(res) > 0 && (BKind(res, BLen(res) - 1) == kindTrival || BKind(res, BLen(res) - 1) == kindSwitch)
+//@   -- native code stays native (C17, compile side): a switch whose initialiser and case bodies hold no yield is pushed as it is
+//@   ensures[local:native-kept] allCaseTrival && !HasYield(old(deref(init)))
+//@        ==> res == children && BKind(children, BLen(children) - 1) == kindTrival && BStmt(children, BLen(children) - 1) == stmt
 //@   modifies BLen(children), BKLen(children), BStmt(children), BKind(children), BChecked(children), BFrozen(children), AST
 
 //@ func (r *yieldRewriter) rewriteForStmt(stmt, children) (res)
@@ -832,9 +835,12 @@ package rewriter
 
 // ---------------------------------------------------------------- pass 0: returns and := initialisers, only inside generator functions (C01, C13)
 
+//@ pred IsIgnoreOf(s ast.Node, e ast.Expr) := isa(s, AssignStmt) && !isnil(s) && as(s, AssignStmt).Tok == token.ASSIGN && len(as(s, AssignStmt).Lhs) == 1
+//@        && isa(as(s, AssignStmt).Lhs[0], Ident) && len(as(s, AssignStmt).Rhs) == 1 && as(s, AssignStmt).Rhs[0] == e
 //@ closure yieldRewriter.rewriteReturnAndForSwitchInitStmtInYieldFun#0 (ret) (isNil)
 //@   trusted      -- go/types lookups: is the returned expression absent or the untyped nil
 //@   ensures len(ret.Results) == 0 ==> isNil
+//@   ensures isNil == RetIsNil(ret)
 
 //@ closure yieldRewriter.rewriteReturnAndForSwitchInitStmtInYieldFun#2 (c) (ok)
 //@   reveal wf-ast
@@ -850,6 +856,16 @@ package rewriter
 //@        && fieldmap(ast.TypeSwitchStmt.Init) == old(fieldmap(ast.TypeSwitchStmt.Init))
 //@   ensures[balanced] isa(cursorNode(c), FuncDecl) || isa(cursorNode(c), FuncLit) ==> SLen(yieldFunStack) == old(SLen(yieldFunStack)) - 1
 //@   ensures[depth] !(isa(cursorNode(c), FuncDecl) || isa(cursorNode(c), FuncLit)) ==> SLen(yieldFunStack) == old(SLen(yieldFunStack)) && STop(yieldFunStack) == old(STop(yieldFunStack))
+//@   -- C18/C01: a generator's `return e` still evaluates e, at the place of the return: `_ = e` is inserted in front, whatever e is
+//@   -- (an index, a field of a nil pointer, a type assertion or a division can panic without containing a call)
+//@   ensures[return-result-evaluated] isa(cursorNode(c), ReturnStmt) && old(STop(yieldFunStack)) && as(cursorNode(c), ReturnStmt).Return != 0
+//@        && !RetIsNil(as(cursorNode(c), ReturnStmt))
+//@        ==> insBase(replBase(W)) == old(W) && IsIgnoreOf(lastInserted(replBase(W)), as(cursorNode(c), ReturnStmt).Results[0])
+//@   ensures[return-lowered] isa(cursorNode(c), ReturnStmt) && old(STop(yieldFunStack)) && as(cursorNode(c), ReturnStmt).Return != 0
+//@        ==> isa(lastReplaced(W), ReturnStmt) && !isnil(lastReplaced(W)) && len(as(lastReplaced(W), ReturnStmt).Results) == 1
+//@             && isa(as(lastReplaced(W), ReturnStmt).Results[0], CallExpr) && IsSeqCall(as(as(lastReplaced(W), ReturnStmt).Results[0], CallExpr), cstReturn)
+//@   ensures[return-nil-plain] isa(cursorNode(c), ReturnStmt) && old(STop(yieldFunStack)) && as(cursorNode(c), ReturnStmt).Return != 0
+//@        && RetIsNil(as(cursorNode(c), ReturnStmt)) ==> replBase(W) == old(W)
 //@   modifies cell(yieldFunStack), W, AST
 
 // ---------------------------------------------------------------- file-level callbacks: only what they are for is touched (C06, C13)
@@ -873,16 +889,26 @@ package rewriter
 //@   ensures[only-iterator-types] !(isa(cursorNode(c), IndexExpr) && IsIterType(typeOfExpr(as(cursorNode(c), IndexExpr).X))) ==> W == old(W)
 //@   modifies W
 
+//@ pred GenSig(t *ast.FuncType) := t != nil && t.Results != nil && len(t.Results.List) > 0 && t.Results.List[0] != nil && WfExpr(t.Results.List[0].Type)
 //@ func (r *yieldRewriter) rewriteYieldFunc(funTy, body)
-//@   trusted      -- uses defer to reset the per-function context; glue around rewriteYieldFuncResult and the verified rewriteYieldFuncBody
-//@   ensures W == yieldFuncRewritten(funTy, body, old(W))
-//@   modifies W, AST
+//@   reveal wf-ast
+//@   requires r.rewriter != nil && !(r.rewriter.seqImportedName == "_") && GenSig(funTy) && body != nil
+//@   -- the per-function context does not outlive the function (deferred reset): nothing of one generator leaks into the next
+//@   ensures[context-reset] r.funcTyp == nil && r.funcBody == nil && r.yieldAst == nil
+//@   ensures[single-return] len(body.List) == 1 && isa(body.List[0], ReturnStmt) && !isnil(body.List[0])
+//@        && len(as(body.List[0], ReturnStmt).Results) == 1 && isa(as(body.List[0], ReturnStmt).Results[0], CallExpr)
+//@        && IsSeqCall(as(as(body.List[0], ReturnStmt).Results[0], CallExpr), cstStart)
+//@   ensures[result-type] isa(funTy.Results.List[0].Type, IndexExpr) && RefersTo(as(funTy.Results.List[0].Type, IndexExpr).X, cstIterator)
+//@   modifies r.funcTyp, r.funcBody, r.yieldAst, body.List, funTy.Results.List[0].Type, W, AST
 
 //@ pred Collected(r *yieldRewriter, n ast.Node) := (isa(n, FuncDecl) && mapTrue(r.rewriter.yieldFuncDecls, n)) || (isa(n, FuncLit) && mapTrue(r.rewriter.yieldFuncLits, n))
 
 //@ func (r *yieldRewriter) rewrite(c, pkg) (ok)
-//@   requires c != nil && r.rewriter != nil
+//@   requires c != nil && r.rewriter != nil && !(r.rewriter.seqImportedName == "_")
 //@   requires isa(cursorNode(c), FuncDecl) || isa(cursorNode(c), FuncLit) ==> !isnil(cursorNode(c))
+//@   -- collectYieldFunc records functions whose single result is co.Iter[T] and that have a body (go/types facts, assumed)
+//@   requires isa(cursorNode(c), FuncDecl) && Collected(r, cursorNode(c)) ==> GenSig(as(cursorNode(c), FuncDecl).Type) && as(cursorNode(c), FuncDecl).Body != nil
+//@   requires isa(cursorNode(c), FuncLit) && Collected(r, cursorNode(c)) ==> GenSig(as(cursorNode(c), FuncLit).Type) && as(cursorNode(c), FuncLit).Body != nil
 //@   ensures[descend] ok
 //@   ensures[only-collected] !Collected(r, cursorNode(c)) ==> W == old(W)      -- functions that do not yield are not entered
 //@   modifies W, AST
